@@ -5,6 +5,7 @@ import (
 	"go/constant"
 	"go/token"
 	"go/types"
+	"morlockverif/checker/internal/core"
 	"strings"
 
 	"golang.org/x/tools/go/ssa"
@@ -492,7 +493,7 @@ func (in *Interp) load(st *State, addr Value, t types.Type) Value {
 						name := strings.TrimPrefix(p.Op, "&.")
 						stt := s.T.Underlying().(*types.Struct)
 						for i := 0; i < stt.NumFields(); i++ {
-							if stt.Field(i).Name() == name {
+							if core.FieldName(stt.Field(i)) == name {
 								return s.F[i]
 							}
 						}
@@ -555,7 +556,7 @@ func (in *Interp) fieldAddr(x Value, field int, t types.Type, st *State) Value {
 	var name string
 	if xs, ok := x.(*Sym); ok && xs.T != nil {
 		if s, ok := deref(xs.T).Underlying().(*types.Struct); ok && field < s.NumFields() {
-			name = s.Field(field).Name()
+			name = core.FieldName(s.Field(field))
 		}
 	}
 	if name == "" {
@@ -572,7 +573,7 @@ func fieldOf(x Value, field int, t types.Type) Value {
 		name := fmt.Sprintf("f%d", field)
 		if s.T != nil {
 			if stt, ok := s.T.Underlying().(*types.Struct); ok && field < stt.NumFields() {
-				name = stt.Field(field).Name()
+				name = core.FieldName(stt.Field(field))
 			}
 		}
 		if s.Op == "*" && len(s.Args) == 1 { // field of *p is p.field
@@ -854,7 +855,7 @@ func (in *Interp) loadGlobalPath(p *Sym) (Value, bool) {
 			name := strings.TrimPrefix(a.Op, "&.")
 			stt := st.T.Underlying().(*types.Struct)
 			for i := 0; i < stt.NumFields(); i++ {
-				if stt.Field(i).Name() == name {
+				if core.FieldName(stt.Field(i)) == name {
 					return st.F[i], true
 				}
 			}
